@@ -94,9 +94,16 @@ pub fn drive_accept(
         let mut input = vec![comp];
         input.extend(inp);
         input.push(OBS_SEP);
+        let obs_empty = obs.is_empty();
         input.extend(obs);
         let j = |v: &Vec<u128>| v.iter().map(|x| x.to_string()).collect::<Vec<_>>().join(" ");
         writeln!(out, "{}\t{}\t{}\t{}", j(&input), j(&o), sig, oracle).unwrap();
+        if oracle != "ok" && !obs_empty {
+            // the acceptance verdict of a case whose oracle fails (possibly a known finding) must stay
+            // visible: same input and output again, judged by the model comparison only
+            let sig2 = format!("acc:{}", sig.trim_start_matches("F5:"));
+            writeln!(out, "{}\t{}\t{}\tok", j(&input), j(&o), sig2).unwrap();
+        }
     };
     if let Some(pos) = extra.iter().position(|a| a == "--replay") {
         let text = std::fs::read_to_string(&extra[pos + 1]).expect("replay file");
